@@ -9423,9 +9423,6 @@ class SVG(Group):
                                 s = Path(values, pathd_loaded=True)
                                 s.parse(values.get(SVG_ATTR_DATA, ""))
                                 if len(s) != 0 and not isinstance(s[0], Move):
-                                    # Path data of an element must begin with a moveto; it is rendered
-                                    # up to the error, which is nothing.
-                                    del s[:]
                                     raise ValueError("Path data does not begin with a moveto")
                             elif SVG_TAG_CIRCLE == tag:
                                 s = Circle(values)
@@ -9446,6 +9443,14 @@ class SVG(Group):
                             if s is None:
                                 # s was not established we continue without it.
                                 continue
+                            if (
+                                isinstance(s, Path)
+                                and len(s) != 0
+                                and not isinstance(s[0], Move)
+                            ):
+                                # Path data of an element must begin with a moveto; it is rendered
+                                # up to the error, which is nothing.
+                                del s[:]
                         s.render(ppi=ppi, width=width, height=height)
                         if reify:
                             s.reify()
